@@ -492,3 +492,8 @@ def nontrivial(line, reply):
     rx, cx = int(t[i]), int(t[i + 1])
     j = i + 2 + rx * cx
     return "%s %s %s %dx%d %sx%s" % (op, t[1], dec, rx, cx, t[j], t[j + 1])
+
+# --- source tie (translator tools/rs2lean.py: the straight-line functions of this property are regenerated from /repo/src on every run
+# into lean/Compute/Generated/SrcC20.lean and proved equal to the hand model in Props/SrcTieC20.lean)
+from . import srctie
+srctie.wire(globals(), 'C20')
